@@ -497,7 +497,7 @@ Definition merge_latest (msg : str) : M (option cerr) :=
 Definition check_record_st (id : Z) (data : str) : M (option cerr) :=
   c <- get_client ;;
   let latest := c_latest c in
-  if Codec.tN latest <=? id then ret (Some ERecordRange)
+  if (id <? 0) || (Codec.tN latest <=? id) then ret (Some ERecordRange)
   else
     r <- tile_read_hashes_st latest [stored_hash_index 0 id] ;;
     match r with
